@@ -74,9 +74,9 @@ class ServePool:
             self.procs[hs] = p
         return p
 
-    def execute(self, hs, run, use_known=False, with_obs=False, timeout=120):
+    def execute(self, hs, run, unmask=(), with_obs=False, timeout=120):
         p = self._get(hs)
-        req = json.dumps({"run": run, "use_known": use_known, "with_obs": with_obs})
+        req = json.dumps({"run": run, "unmask": list(unmask), "with_obs": with_obs})
         try:
             p.stdin.write(req + "\n")
             p.stdin.flush()
@@ -196,7 +196,7 @@ def minimise(prop, mod, pool, run, sig, kind, hash_seeds, budget_n=400):
         if kind == "lockstep":
             s, _ = lockstep_sig(prop, pool, cand, hash_seeds[0], hash_seeds[1])
             return s == sig
-        r = pool.execute(hash_seeds[0], cand)
+        r = pool.execute(hash_seeds[0], cand, unmask=[sig])
         return any(v["sig"] == sig for v in r["violations"])
 
     if not test(run["trace"]):
@@ -233,7 +233,7 @@ def replay_file(path, quiet=False):
             sig, detail = lockstep_sig(prop, pool, rp["run"], h1, h2)
             ok = sig == rp["signature"]
             return ok, {"signature": sig, "detail": detail}
-        r = pool.execute(rp["hash_seeds"][0], rp["run"], use_known=False)
+        r = pool.execute(rp["hash_seeds"][0], rp["run"], unmask=[rp["signature"]])
         if r.get("harness_error"):
             return False, {"harness_error": r["harness_error"]}
         for v in r["violations"]:
